@@ -63,6 +63,7 @@ type scen struct {
 	Cfg     ccfg   `json:"cfg"`
 	Pre     []op   `json:"pre"` // executed sequentially before the threads start
 	Threads [][]op `json:"threads"`
+	PB      int    `json:"pb"`
 }
 
 func (s scen) String() string {
@@ -116,12 +117,10 @@ func (w *world) do(o op, tid int) {
 		w.written[string(v)] = true
 		if o.Split && len(v) > 1 {
 			wr.Write(v[:len(v)/2])
-			vrt.Point("w.mid", w)
 			wr.Write(v[len(v)/2:])
 		} else {
 			wr.Write(v)
 		}
-		vrt.Point("w.written", w)
 		switch o.K {
 		case "W":
 			if w.invoked[o.Key] == nil {
@@ -272,32 +271,45 @@ func scenarios(tier string) []scen {
 	R := func(k string) op { return op{K: "R", Key: k} }
 	Rd := func(k string) op { return op{K: "R", Key: k, Direct: true} }
 	t1s := [][]op{{W(k0, 9)}, {Ws(k0, 9), W(k1, 9)}, {A(k0)}, {W(k0, 0)}, {O(k0)}, {Wd(k0, 9)}}
-	t2s := [][]op{{W(k0, 12)}, {W(k1, 1), W(k2, 9)}, {R(k0)}, {A(k0), W(k0, 1)}}
-	t3s := [][]op{{R(k0)}, {R(k0), R(k0)}, {R(k0), R(k1)}, {Rd(k0)}}
-	pres := [][]op{nil, {W(k0, 5)}}
+	readers := [][]op{{R(k0)}, {R(k0), R(k0)}, {Rd(k0)}, {R(k0), R(k1)}}
+	pres := [][]op{nil, {W(k0, 5)}, {W(k0, 5), W(k1, 5)}}
 	cfgs := []ccfg{{Kind: "dir"}, {Kind: "dir", SyncAdd: true}, {Kind: "dir", Direct: true}, {Kind: "mem"}}
-	if tier != "thorough" {
-		t1s = [][]op{{Ws(k0, 9), W(k1, 9)}, {A(k0)}, {W(k0, 0)}, {O(k0)}}
-		t2s = [][]op{{W(k0, 12)}, {W(k1, 1), W(k2, 9)}, {A(k0), W(k0, 1)}}
-		t3s = [][]op{{R(k0), R(k0)}, {R(k0), R(k1)}, {Rd(k0)}}
-	}
 	if tier == "thorough" {
 		cfgs = append(cfgs, ccfg{Kind: "dir", Fadv: true}, ccfg{Kind: "dir", Fadv: true, Direct: true, SyncAdd: true})
-		t3s = append(t3s, []op{R(k1), R(k0)}, []op{Rd(k0), R(k0)})
-		pres = append(pres, []op{W(k0, 5), W(k1, 5)})
+		readers = append(readers, []op{R(k1), R(k0)}, []op{Rd(k0), R(k0)})
 	}
 	var out []scen
+	// two threads: one writer program, one reader program
 	for _, c := range cfgs {
 		for _, p := range pres {
 			for _, a := range t1s {
-				for _, b := range t2s {
-					for _, d := range t3s {
-						out = append(out, scen{Cfg: c, Pre: p, Threads: [][]op{a, b, d}})
+				for _, d := range readers {
+					out = append(out, scen{Cfg: c, Pre: p, Threads: [][]op{a, d}, PB: 2})
+				}
+			}
+		}
+	}
+	// three threads: two writers on the same / different keys and a reader
+	w1 := [][]op{{W(k0, 9)}, {A(k0)}, {W(k0, 0)}}
+	w2 := [][]op{{W(k0, 12)}, {W(k1, 1)}}
+	r3 := [][]op{{R(k0)}, {R(k0), R(k1)}}
+	pb3 := 1
+	if tier == "thorough" {
+		pb3 = 2
+		w2 = append(w2, []op{A(k0), W(k0, 1)}, []op{W(k1, 1), W(k2, 9)})
+	}
+	for _, c := range cfgs {
+		for _, p := range pres[:2] {
+			for _, a := range w1 {
+				for _, b := range w2 {
+					for _, d := range r3 {
+						out = append(out, scen{Cfg: c, Pre: p, Threads: [][]op{a, b, d}, PB: pb3})
 					}
 				}
 			}
 		}
 	}
+	_ = k2
 	return out
 }
 
@@ -323,7 +335,29 @@ func classify(msg string) string {
 	return "other"
 }
 
+func debugOne() {
+	scs := scenarios("quick")
+	n := 5
+	fmt.Sscan(os.Getenv("C11_DEBUG"), &n)
+	sc := scs[n]
+	fmt.Println(len(scs), sc.String())
+	for _, pb := range []int{0, 1, sc.PB} {
+		t0 := time.Now()
+		st := vexp.Explore(scenario(sc, "/dev/shm"), vexp.Options{PB: pb})
+		fmt.Printf("pb=%d exec=%d trans=%d choices=%d outcomes=%d finals=%d pruned=%d keys=%d %v %s\n", pb, st.Executions, st.Transitions, st.Choices, len(st.Outcomes), st.FinalStates, st.Pruned, st.StateKeys, time.Since(t0), st.Broken)
+		if pb == 0 {
+			for _, l := range st.SampleTraces[0] {
+				fmt.Println("   ", l)
+			}
+		}
+	}
+}
+
 func main() {
+	if os.Getenv("C11_DEBUG") != "" {
+		debugOne()
+		return
+	}
 	runner.Main(runner.Check{
 		ID:          "C11",
 		Level:       "model_checking",
@@ -333,9 +367,6 @@ func main() {
 		Parts: func(tier string) []runner.Part {
 			scs := scenarios(tier)
 			pb := 2
-			if tier == "thorough" {
-				pb = 3
-			}
 			return []runner.Part{{Name: "sched", Shards: 32, Run: func(c *runner.Ctx) *runner.Result {
 				res := &runner.Result{Outcomes: map[string]int{}}
 				seen := map[string]bool{}
@@ -351,7 +382,7 @@ func main() {
 					if i < 3*c.Of {
 						det = 5
 					}
-					st := vexp.Explore(scenario(sc, c.Scratch), vexp.Options{PB: pb, DetChecks: det, Deadline: c.Deadline})
+					st := vexp.Explore(scenario(sc, c.Scratch), vexp.Options{PB: sc.PB, DetChecks: det, Deadline: c.Deadline})
 					res.Evaluations += st.Executions
 					res.States += int64(st.StateKeys)
 					res.Transitions += st.Transitions
@@ -380,7 +411,7 @@ func main() {
 						res.Samples = append(res.Samples, map[string]any{"scenario": sc.String(), "executions": st.Executions, "trace_head": st.SampleTraces[0]})
 					}
 				}
-				res.Extra = map[string]any{"preemption_bound_completed": pb, "scenarios": len(scs)}
+				res.Extra = map[string]any{"preemption_bound_completed": fmt.Sprintf("%d for two-thread scenarios, %d for three-thread scenarios", pb, scs[len(scs)-1].PB), "scenarios": len(scs)}
 				return res
 			}, Replay: func(c *runner.Ctx, raw json.RawMessage) (string, error) {
 				var r struct {
